@@ -22,7 +22,7 @@ LEVEL_TEXT = ("Decides on every path of the type-checked MIR of the current tree
               "oneOf only when every element passed; each only for the exact shape (all other subschema fields None), with dependencies and the type predicate handed on unchanged; "
               "(R6) validate_tags returns exactly the specified verdict for every visible x policy x tag-count x "
               "allow_other_tags x membership shape. Not decided: the global converse (every accepted table is unambiguous and every endpoint reachable) as one theorem over all "
-              "registration sequences - the rules check its premises, not the induction; type_is_scalar / type_is_string_enum over all schemas (schemars level) beyond the subschema clause R5b. Also (R5, vpp): validate_path_parameters returns Ok only through the `sets are equal` edge of the comparison of the template's variables with the handler's path parameters. Also (R7 = C01.R7): a router holding any version-restricted endpoint records it stickily and an unversioned server refuses it.")
+              "registration sequences - the rules check its premises, not the induction; type_is_scalar / type_is_string_enum over all schemas (schemars level) beyond the subschema clause R5b. Also (R5, vpp): validate_path_parameters returns Ok only through the `sets are equal` edge of the comparison of the template's variables with the handler's path parameters. Also (R7 = C01.R7): a router holding any version-restricted endpoint records it stickily and an unversioned server refuses it. Also (R8): the api_description macro fills a missing `allow_other_tags` of its tag_config from Default (false).")
 LEVEL_NOTE = ("Trusts rustc MIR construction, the extractor, engine dominators/slices, rules/absint.py, std collections (BTreeMap::entry/get_or_insert, BTreeSet::contains/insert, HashSet equality, "
               "HashMap::contains_key) and panics as refusal. R4E2 re-runs rule C05.E2 of rules/c05.py (exhaustive interpretation of overlaps_with over all weak orders) under this property's id; "
               "it assumes semver::Version's order is total and unbounded below.")
